@@ -45,6 +45,37 @@ func c14(c *Ctx) {
 		c.undecided(r, "floor", fmt.Sprintf("expected >=5 fetchVLog sites, found %d", nfetch))
 	}
 
+	// "repeated or concurrent truncation is harmless": a value log is an exclusive resource; a release deferred from
+	// inside a loop keeps every value log taken so far until the function returns, so two callers that take them in
+	// different orders (a map is ranged in random order) wait for each other forever, with every value log locked
+	r = "C14.1/vlogs-not-accumulated"
+	nrel := 0
+	for _, fn := range c.allFns {
+		if !fnInPkgs(fn, []string{"embedded/store"}) || len(fn.Blocks) == 0 {
+			continue
+		}
+		per := 0
+		allInstrs(fn, false, func(in ssa.Instruction) {
+			d, ok := in.(*ssa.Defer)
+			if !ok || calleeName(&d.Call) != storeT+"releaseVLog" {
+				return
+			}
+			nrel++
+			per++
+			inLoop := false
+			for _, succ := range in.Block().Succs {
+				if reaches(succ, in.Block(), nil) {
+					inLoop = true
+				}
+			}
+			c.check(!inLoop, r, fmt.Sprintf("%s:deferred-release#%d", fnName(fn), per), c.pos(in.Pos()), "the deferred release is not inside a loop",
+				"releaseVLog is deferred from inside a loop: every value log fetched by the loop stays locked until the function returns, concurrent callers taking them in another order deadlock")
+		})
+	}
+	if nrel < 2 {
+		c.undecided(r, "floor", fmt.Sprintf("%d deferred releaseVLog calls found", nrel))
+	}
+
 	// ---- C14.2 only value logs (and the index's own logs) are ever discarded ----------------------------
 	r = "C14.2/discard-sites"
 	for _, in := range c.callSites(callTo(appDiscard)) {
